@@ -5,7 +5,7 @@
    server/request.rs resolve_request, client/stream.rs recv_response and connection.rs poll_recv_trailers /
    poll_control call them on what FrameStream::poll_next hands out.  A Panic of any stage is RpPanic. *)
 From H3V Require Import Base.Bytes Spec.FrameVocab Model.Varint Model.FrameDec Model.PrefixInt Model.Huffman
-  Model.PrefixString Model.Static Model.QpackStateless Model.Headers Model.Settings.
+  Model.PrefixString Model.Static Model.QpackStateless Model.HttpCrate Model.Headers Model.Settings.
 
 Inductive rp_role := RpServerRequest | RpClientResponse | RpTrailers.
 
@@ -30,7 +30,7 @@ Definition rp_message_of (role : rp_role) (grow : N -> bool) (fs : list (bytes *
   end.
 
 Definition recv_path (role : rp_role) (grow : N -> bool) (max : option N) (v : bytes) : rp_out :=
-  match fst (frame_decode v) with
+  match fst (FrameDec.frame_decode v) with
   | Panic s => RpPanic s
   | Err e => RpFrameRefused e
   | Ok (FHeaders block) =>
